@@ -106,6 +106,14 @@ class SBool:
 
     __index__ = __int__
 
+    def __rpow__(self, base):
+        """base ** bit  ==  base if bit else 1"""
+        if isinstance(self.c, bool):
+            return base ** int(self.c)
+        if isinstance(base, int) and not isinstance(base, bool):
+            return SInt(z3.If(self.to_z3(), z3.IntVal(base), z3.IntVal(1)))
+        return self.to_sint().to_snum().__rpow__(base)
+
     def to_z3(self):
         if isinstance(self.c, bool):
             return z3.BoolVal(self.c)
